@@ -355,4 +355,62 @@ theorem delayVolume_tick_time (g : Gen σ α) (m : SimModel α) (times : List α
   cases decide (pr.proposed < s.nextTick ∧ pr.proposed < s.q.next) <;> cases decide (s.nextTick < s.q.next) <;> simp
   all_goals split_ifs <;> simp
 
+/-! ### Whole runs: as many rows as volume entries, and that many time points were reached -/
+
+/-- any property preserved by one iteration holds for whatever state the loop returns. -/
+theorem runLoop_preserves (iter : LoopState σ α → LoopState σ α) (n : Nat) (P : LoopState σ α → Prop)
+    (hstep : ∀ s, P s → P (iter s)) :
+    ∀ (fuel : Nat) (s s' : LoopState σ α), P s → runLoop iter n fuel s = some s' → P s' := by
+  intro fuel
+  induction fuel with
+  | zero =>
+    intro s s' h hrun
+    unfold runLoop at hrun
+    split at hrun
+    · exact absurd hrun (by simp)
+    · cases hrun; exact h
+  | succ fuel ih =>
+    intro s s' h hrun
+    unfold runLoop at hrun
+    split at hrun
+    · exact ih _ _ (hstep s h) hrun
+    · cases hrun; exact h
+
+/-- the rows and the volume trace grow together with the index of the next time point. -/
+def Recorded (s : LoopState σ α) : Prop := s.rows.length = s.idx ∧ s.volTrace.length = s.idx
+
+theorem dvApply_recorded (g : Gen σ α) (m : SimModel α) (vm : VolModel α) (times : List α) (s : LoopState σ α)
+    (d : DVDecision σ α) (h : Recorded s) : Recorded (dvApply g m vm times s d) := by
+  unfold Recorded at h ⊢
+  unfold dvApply
+  simp only
+  split_ifs <;> (try split) <;> (try split_ifs) <;>
+    simp [replicateRow, List.length_append, List.length_replicate, h.1, h.2]
+
+/-- **a delay+volume run that stops at a division returns as many rows as volume entries, one per time point reached**
+(there is no further row: the arrays handed back are cut at the index the loop stopped at). -/
+theorem delayVolume_run_recorded (g : Gen σ α) (m : SimModel α) (vm : VolModel α) (times : List α) (fuel : Nat)
+    (s s' : LoopState σ α) (h : Recorded s)
+    (hrun : runLoop (delayVolumeIter g m vm times) times.length fuel s = some s') : Recorded s' :=
+  runLoop_preserves (delayVolumeIter g m vm times) times.length Recorded
+    (fun s hs => dvApply_recorded g m vm times s (dvDecide g m times s) hs) fuel s s' h hrun
+
+theorem volumeIter_recorded (g : Gen σ α) (m : SimModel α) (vm : VolModel α) (times : List α) (s : LoopState σ α)
+    (h : Recorded s) : Recorded (volumeIter g m vm times s) := by
+  unfold Recorded at h ⊢
+  unfold volumeIter
+  simp only
+  split_ifs <;> simp [replicateRow, List.length_append, List.length_replicate, h.1, h.2]
+
+/-- the same for the volume simulator: a run cut short by a division hands back exactly the rows it wrote. -/
+theorem volume_run_recorded (g : Gen σ α) (m : SimModel α) (vm : VolModel α) (times : List α) (fuel : Nat)
+    (s s' : LoopState σ α) (h : Recorded s)
+    (hrun : runLoop (volumeIter g m vm times) times.length fuel s = some s') : Recorded s' :=
+  runLoop_preserves (volumeIter g m vm times) times.length Recorded
+    (fun s hs => volumeIter_recorded g m vm times s hs) fuel s s' h hrun
+
+/-- the initial state has written nothing yet. -/
+example (m : SimModel α) (x0 p0 : List α) (g0 : σ) (vol0 : α) (q0 : DQ α) : Recorded (initState m x0 p0 g0 vol0 q0) := by
+  simp [Recorded, initState]
+
 end Bioscrape.C11
